@@ -301,7 +301,9 @@ class C04(Prop):
                 opt = ' '.join(rng.sample(['+container', '-container', '+skip', '-skip', '+macros', '-macros', '+spans', '-spans',
                                            '+specials', '-specials'], rng.choice([1, 1, 2])))
                 blockk = rng.choice(['``\ncode *x*\n``', '..\ndiv *x*\n..', '""\nquote *x*\n""', 'para *x*', '  indented *x*',
-                                     '> qp *x*', '/*\ncomment\n*/', '<div>html</div>', '--\ncode\n--'])
+                                     '> qp *x*', '/*\ncomment\n*/', '<div>html</div>', '--\ncode\n--',
+                                     # the delimited block that is itself a definition, and line-level definitions
+                                     "{mm} = 'A\nB'", "{m1} = 'first\n{m1} second\n'", "{mm?} = 'A\n\nB'", gen.definition_line(rng)])
                 lines.insert(rng.randrange(len(lines) + 1), '\n.%s\n%s\n' % (opt, blockk))
             mode = rng.choice([m for m in range(1, 16)])
             yield {'preamble': pre, 'untrusted': {'src': clean('\n'.join(lines)), 'safeMode': mode, 'callback': True},
